@@ -954,4 +954,219 @@ theorem finalizeFuel_enough : ∀ (l : List Entry) (fuel : Nat) (fs : FS),
       simp only [this, if_true]
       exact ih _ _ (fun e' he' => hm e' (by simp [he'])) (by omega)
 
+/-! ## deferred writing versus writing directly -/
+
+/-- the modes used by the library writers and their read-back: `r`, `w`, `a`, `w+` -/
+def Mode.plain : Mode → Bool
+  | .r | .w | .a | .wp => true
+  | _ => false
+
+theorem findEntry_append (l l' : List Entry) (q : Path) :
+    findEntry (l ++ l') q = match findEntry l q with
+      | some e => some e
+      | none => findEntry l' q := by
+  induction l with
+  | nil => simp [findEntry]
+  | cons a t ih =>
+    simp only [List.cons_append, findEntry]
+    split
+    · rfl
+    · exact ih
+
+theorem findEntry_setModeFirst_ne (l : List Entry) {p q : Path} (m : Mode) (h : q ≠ p) :
+    findEntry (setModeFirst l p m) q = findEntry l q := by
+  induction l with
+  | nil => rfl
+  | cons a t ih =>
+    simp only [setModeFirst]
+    split
+    · rename_i hd
+      have : ¬ a.dest = q := fun hh => h (hh ▸ hd)
+      simp [findEntry, hd, this, h.symm]
+    · simp only [findEntry]; split
+      · rfl
+      · exact ih
+
+theorem findEntry_setModeFirst_eq {l : List Entry} {p : Path} {e : Entry} (m : Mode) (h : findEntry l p = some e) :
+    findEntry (setModeFirst l p m) p = some { e with mode := m } := by
+  induction l with
+  | nil => simp [findEntry] at h
+  | cons a t ih =>
+    simp only [findEntry] at h
+    simp only [setModeFirst]
+    split
+    · rename_i hd
+      simp only [hd, if_true, Option.some.injEq] at h
+      subst h
+      simp [findEntry, hd]
+    · rename_i hd
+      simp only [hd, if_false] at h
+      simp only [findEntry, hd, if_false]
+      exact ih h
+
+/-- The direct-write file system `dfs` is tracked by the writer state: a name without pending entry is as
+in the initial file system; a name with a `w`-like entry holds what its temporary holds; a name with an
+append entry holds its initial contents followed by what its temporary holds. -/
+def Tracks (fs0 : FS) (st : State) (dfs : FS) : Prop :=
+  ∀ p, p.isTmp = false →
+    match findEntry st.pending p with
+    | none => get dfs p = get fs0 p
+    | some e =>
+        if e.mode.writeish = true then get dfs p = get st.fs (.tmp e.tmp)
+        else get dfs p = some ((get fs0 p).getD [] ++ (get st.fs (.tmp e.tmp)).getD [])
+
+theorem tracks_init (fs0 : FS) : Tracks fs0 (init fs0) fs0 := by
+  intro p _; simp [init, findEntry]
+
+theorem directOp_ne (dfs : FS) {p q : Path} (m : Mode) (d : Bytes) (h : q ≠ p) :
+    get (directOp dfs (p, m, d)) q = get dfs q := by
+  unfold directOp
+  cases m <;> simp only [] <;> (try rw [get_set_ne _ _ h])
+  split
+  · rfl
+  · rw [get_set_ne _ _ h]
+
+
+theorem eq_of_tmp_eq : ∀ {l : List Entry}, (l.map Entry.tmp).Nodup → ∀ {e1 e2 : Entry}, e1 ∈ l → e2 ∈ l →
+    e1.tmp = e2.tmp → e1 = e2 := by
+  intro l
+  induction l with
+  | nil => intro _ e1 _ h; cases h
+  | cons a t ih =>
+    intro hn e1 e2 h1 h2 hd
+    simp only [List.map_cons, List.nodup_cons] at hn
+    rcases List.mem_cons.1 h1 with rfl | h1' <;> rcases List.mem_cons.1 h2 with rfl | h2'
+    · rfl
+    · exact absurd (hd ▸ mem_map_tmp h2') hn.1
+    · exact absurd (hd ▸ mem_map_tmp h1') hn.1
+    · exact ih hn.2 h1' h2' hd
+
+theorem openOp_reopen_w {st : State} {p : Path} {e : Entry} (hf : findEntry st.pending p = some e)
+    {m : Mode} (hm : m = .w ∨ m = .wp) (d : Bytes) :
+    (openOp st p m d).1 = { fs := set st.fs (.tmp e.tmp) d,
+                            pending := if (!e.mode.hasW && !e.mode.hasPlus) = true then setModeFirst st.pending p m
+                                       else st.pending,
+                            next := st.next } := by
+  rcases hm with rfl | rfl <;> (simp only [openOp, hf]; rfl)
+
+theorem directOp_w (dfs : FS) (p : Path) {m : Mode} (hm : m = .w ∨ m = .wp) (d : Bytes) :
+    directOp dfs (p, m, d) = set dfs p d := by
+  rcases hm with rfl | rfl <;> rfl
+
+theorem writeish_of_not {m : Mode} (hc : ¬ (!m.hasW && !m.hasPlus) = true) : m.writeish = true := by
+  cases m <;> simp [Mode.hasW, Mode.hasPlus, Mode.writeish] at hc ⊢
+
+theorem tracks_reopen_w {fs0 : FS} {st : State} {dfs : FS} {q : Path} {e : Entry}
+    (hf : findEntry st.pending q = some e) {m : Mode} (hm : m = .w ∨ m = .wp) (d : Bytes) :
+    match findEntry (openOp st q m d).1.pending q with
+    | none => get (directOp dfs (q, m, d)) q = get fs0 q
+    | some e =>
+        if e.mode.writeish = true then get (directOp dfs (q, m, d)) q = get (openOp st q m d).1.fs (.tmp e.tmp)
+        else get (directOp dfs (q, m, d)) q
+              = some ((get fs0 q).getD [] ++ (get (openOp st q m d).1.fs (.tmp e.tmp)).getD []) := by
+  rw [openOp_reopen_w hf hm, directOp_w dfs q hm]
+  simp only []
+  by_cases hc : (!e.mode.hasW && !e.mode.hasPlus) = true
+  · rw [if_pos hc, findEntry_setModeFirst_eq _ hf]
+    simp only []
+    have : m.writeish = true := by rcases hm with rfl | rfl <;> rfl
+    rw [if_pos this, get_set_eq, get_set_eq]
+  · rw [if_neg hc, hf]
+    simp only []
+    rw [if_pos (writeish_of_not hc), get_set_eq, get_set_eq]
+
+theorem tracks_step {fs0 : FS} {st : State} {dfs : FS} (hwf : WF st) (ht : Tracks fs0 st dfs)
+    {p : Path} (hp : p.isTmp = false) {m : Mode} (hm : m.plain = true) (d : Bytes) :
+    Tracks fs0 (openOp st p m d).1 (directOp dfs (p, m, d)) := by
+  intro q hq
+  have htq := ht q hq
+  by_cases hqp : q = p
+  · -- the path that is opened
+    subst hqp
+    cases hf : findEntry st.pending q with
+    | none =>
+      rw [hf] at htq
+      simp only [] at htq
+      cases m <;> simp [Mode.plain] at hm
+      · -- r
+        have : (openOp st q .r d).1 = st := by
+          unfold openOp; simp only [hf, Mode.hasPlus, Mode.hasA, Mode.hasW, Mode.hasR]
+          simp; split <;> rfl
+        rw [this, hf]; simpa [directOp] using htq
+      all_goals
+        unfold openOp directOp
+        simp only [hf, Mode.hasPlus, Mode.hasA, Mode.hasW, Mode.hasR]
+        simp [findEntry_append, hf, findEntry, Mode.writeish, Mode.hasW, Mode.hasPlus, get_set_eq, htq]
+    | some e =>
+      rw [hf] at htq
+      simp only [] at htq
+      have he := findEntry_some hf
+      obtain ⟨told, htold⟩ := Option.ne_none_iff_exists'.1 (hwf.tmp_exists e.tmp (mem_map_tmp he.1))
+      cases m <;> simp [Mode.plain] at hm
+      · -- r
+        have : (openOp st q .r d).1 = st := by
+          unfold openOp; simp [hf, Mode.hasW]
+        rw [this, hf]; simpa [directOp] using htq
+      · -- w
+        exact tracks_reopen_w hf (Or.inl rfl) d
+      · -- a
+        unfold openOp directOp
+        simp only [hf, Mode.hasW]
+        simp [hf, get_set_eq, writeVia, htold]
+        split at htq
+        · rename_i hw; simp [hw, htq, htold]
+        · rename_i hw; simp [hw, htq, htold]
+      · -- w+
+        exact tracks_reopen_w hf (Or.inr rfl) d
+  · -- another path: its entry, its temporary and its direct contents are unchanged
+    rw [directOp_ne dfs m d hqp]
+    rcases openOp_shape st p m d with ⟨e, hf, _, hpend, hfs⟩ | ⟨_, heq⟩ | ⟨hf, _, c, heq⟩
+    · have he := findEntry_some hf
+      have hfe : findEntry (openOp st p m d).1.pending q = findEntry st.pending q := by
+        rcases hpend with h1 | ⟨h1, _⟩ <;> rw [h1]
+        exact findEntry_setModeFirst_ne _ _ hqp
+      rw [hfe]
+      cases hfq : findEntry st.pending q with
+      | none => rw [hfq] at htq; exact htq
+      | some e' =>
+        rw [hfq] at htq
+        have he' := findEntry_some hfq
+        have hne : e'.tmp ≠ e.tmp := by
+          intro hh
+          have : e' = e := eq_of_tmp_eq hwf.tmp_nodup he'.1 he.1 hh
+          rw [this] at he'; exact hqp (he'.2.symm.trans he.2)
+        have hg : get (openOp st p m d).1.fs (.tmp e'.tmp) = get st.fs (.tmp e'.tmp) := by
+          rcases hfs with h1 | ⟨c, h1⟩ <;> rw [h1]
+          exact get_set_ne _ _ (by simpa [tmp_inj] using hne)
+        simp only [] at htq ⊢
+        rw [hg]; exact htq
+    · rw [heq]; exact htq
+    · rw [heq]
+      simp only [findEntry_append]
+      cases hfq : findEntry st.pending q with
+      | none =>
+        rw [hfq] at htq
+        have : ¬ p = q := fun hh => hqp hh.symm
+        simpa [findEntry, this] using htq
+      | some e' =>
+        rw [hfq] at htq
+        have he' := findEntry_some hfq
+        have hne : e'.tmp ≠ st.next := Nat.ne_of_lt (hwf.tmp_lt _ (mem_map_tmp he'.1))
+        simp only [] at htq ⊢
+        rw [get_set_ne _ _ (by simpa [tmp_inj] using hne)]
+        exact htq
+
+theorem tracks_run {fs0 : FS} : ∀ (ops : List OpenReq) {st : State} {dfs : FS}, WF st → Tracks fs0 st dfs →
+    (∀ o ∈ ops, o.1.isTmp = false ∧ o.2.1.plain = true) →
+    Tracks fs0 (runOpens st ops) (directRun dfs ops) := by
+  intro ops
+  induction ops with
+  | nil => intro st dfs _ h _; exact h
+  | cons o t ih =>
+    intro st dfs hwf h hu
+    simp only [runOpens, directRun, List.foldl_cons] at ih ⊢
+    obtain ⟨p, m, d⟩ := o
+    exact ih (openOp_wf hwf (hu _ (by simp)).1 _ _) (tracks_step hwf h (hu _ (by simp)).1 (hu _ (by simp)).2 d)
+      (fun o' ho' => hu o' (by simp [ho']))
+
 end C07
